@@ -152,6 +152,10 @@ def add_order_hints(scenario, gores):
                     cur.append(None)
                 cur.append(ev[2])
                 last_poll = pa
+        out = r.get("out", "")
+        if out.startswith("evalErr:") and passes:
+            # the failing rule was visited right after the last reported one
+            passes[-1].append(out.split(":")[1])
         op["orders_raw"] = passes
     return sc
 
@@ -210,6 +214,10 @@ def canon_node(n):
         return ["jarr", [canon_node(x) for x in n[-1]]]
     if tag == "time":
         return ["time", str(n[1]), str(n[2]), (str(n[3]) if n[3] is not None else None)]
+    if tag in ("float64", "float32"):
+        b = int(n[1])
+        if (b >> 52) & 0x7FF == 0x7FF and (b & ((1 << 52) - 1)) != 0:
+            return [tag, "NaN"]
     return [tag] + [str(x) if not isinstance(x, bool) else x for x in n[1:]]
 
 
@@ -352,6 +360,49 @@ def compare(scenario, gores, leanres):
     return "ok", ""
 
 
+def compare_spec(scenario, gores, leanres):
+    """property oracle: the real engine against the memo-free (from-scratch) semantics.
+    returns list of (op index, kind, detail) of divergences; kind in trace|store|out|fetch"""
+    out = []
+    if "res" not in gores or "res" not in leanres:
+        return out
+    for i, (op, g, l) in enumerate(zip(scenario["ops"], gores["res"], leanres["res"])):
+        sp = l.get("spec")
+        if not sp or "out" not in g:
+            continue
+        if isinstance(sp.get("out"), str) and sp["out"].startswith("unmodelled:"):
+            continue
+        if op["op"] == "exec":
+            d = first_diff(g.get("trace"), sp.get("trace"), "trace")
+            if d:
+                out.append((i, "trace", d))
+                continue
+            if g.get("out") != sp.get("out"):
+                out.append((i, "out", "%s vs %s" % (g.get("out"), sp.get("out"))))
+                continue
+            d = first_diff(canon_store(g.get("store", [])), canon_store(sp.get("store", [])), "store")
+            if d:
+                out.append((i, "store", d))
+        elif op["op"] == "fetch":
+            go_out = g.get("out")
+            if go_out and go_out.startswith("evalErr:"):
+                go_out = "evalErr"
+            so = sp.get("out")
+            if so and so.startswith("evalErr:"):
+                so = "evalErr"
+            if go_out != so:
+                out.append((i, "fetch", "%s vs %s" % (go_out, so)))
+                continue
+            d = first_diff(canon_fetch_rules(g.get("rules", [])), canon_fetch_rules(sp.get("rules", [])), "rules")
+            if d:
+                out.append((i, "fetch", d))
+                continue
+            d = first_diff(canon_store(g.get("store", [])), canon_store(sp.get("store", [])), "store")
+            if d:
+                out.append((i, "fetch", d))
+    return out
+
+
 def correspond(scenarios, jobs=8):
     """full two-pass pipeline; returns list of (scenario_with_hints, go, lean, status, detail)"""
     go = run_go(scenarios, jobs)
@@ -374,4 +425,8 @@ if __name__ == "__main__":
     res = correspond(scs, jobs=int(os.environ.get("JOBS", "4")))
     for sc, g, l, st, d in res:
         print(sc["id"], st, d)
+        if sc.get("no_oracle"):
+            continue
+        for i, kind, det in compare_spec(sc, g, l):
+            print(sc["id"], "SPEC-DIVERGENCE", i, kind, det[:300])
     print("wall", time.time() - t0)
